@@ -11,14 +11,32 @@
       the debt was created for; the reader gives an over-payment back as exactly one reference
       ([C12_pay_slot], [C12_guard_drop]);
     - a writer never waits for a reader of any container (C09) and a load is wait-free (C08).
-    NOT yet proved (partial): "a reader of A is never handed a value only stored in B" over all
+    Beyond these step theorems (see END-TO-END below for what is now proved over all schedules): "a reader of A is never handed a value only stored in B" over all
     schedules on the helping path (needs the uniqueness of generations within a node's
     ownership epoch; defects D2 and D8, both found and repaired, were violations of exactly
-    this), and exact counts with one value in several containers ([Acc*], in progress).
+    this), and exact counts with one value in several containers (now proved: see END-TO-END below).
     Checked on every run by the correspondence oracle (provenance of every loaded identity per
     container; multi-container programs incl. one value stored in several containers) and by
-    the grid of the D8 schedule shape. *)
-From ASModel Require Import Base State Orderings_gen Step Run Progress Hist Local.
+    the grid of the D8 schedule shape. 
+    END-TO-END ([ASModel.Main], all schedules, any number of threads): the theorems below hold for
+    every run from an initial configuration that satisfies [RunOK]: initial values are null or
+    valid addresses; no program calls the verification hook [set_generation] or uses Cache; in
+    every state of the run no generation counter is within 4 of wrapping ([GenBound]: a wrap needs
+    2^62 fallback loads of one thread; the wrap itself is C13), a command's destination handle is
+    empty and the source of a running clone is not dropped (conditions on the TEST PROGRAM, met by
+    every generated program: the model driver checks them on every run and the evidence counts the
+    runs inside this scope); the allocator hands out addresses that are not live, not null and not
+    the empty-slot marker.
+    [C12_load_own_container]: the value a completed load / load_full of container c put into its
+    handle was the content of THIS container in one of the states between call and return - never
+    a value only another container stored, also on the helping path where all containers share the
+    nodes, slots, control words and envelopes; [C12_help_same_container]: if a writer's exchange
+    of the control word succeeds, the request it answers is a request for the writer's own
+    container; [C12_accounting] holds with any number of containers storing the same value.
+*)
+From ASModel Require Import Base State Orderings_gen Step Run Progress Hist Local Inv InvTl InvProto InvStep Sum StepCases.
+From ASModel Require Import GenDefs Gen1 Gen2 Gen EnvDefs Env4 Env AccDefs Acc1 Acc2 Acc3 Acc4 Acc5 Acc6 Acc7 Acc.
+From ASModel Require Import ProtDefs Prot1 Prot11 Prot16 Prot Typed LinDefs Lin2 Lin Safe1 Safe2 Safe7 Safe8 Safe Main.
 
 Theorem C12_only_own_storage : forall cf s t x c,
   store_effect c (mem (sh s)) (mem (sh (fst (step cf s t x)))) (snd (step cf s t x))
@@ -53,8 +71,38 @@ Theorem C12_guard_drop : forall cf s l v sl x,
        if mem s (slot_loc sl) =? v then NRet RUnit else dec_then v RUnit).
 Proof. exact guard_drop_step. Qed.
 
+Theorem C12_load_own_container :
+  forall cf inits progs sched, RunOK cf inits progs sched ->
+  forall t i c h full pa pb xa tb xb,
+  let s0 := init_state inits progs in
+  nth_error (t_prog (thr s0 t)) (N.to_nat i) = Some (if full : bool then CLoadFull c h else CLoad c h) ->
+  (pa <= pb)%nat ->
+  nth_error sched pa = Some (t, xa) ->
+  t_status (thr (St cf s0 sched pa) t) = Running -> t_stack (thr (St cf s0 sched pa) t) = [] ->
+  t_cmdi (thr (St cf s0 sched pa) t) = i ->
+  nth_error sched pb = Some (tb, xb) ->
+  t_cmdi (thr (St cf s0 sched pb) t) = i -> t_cmdi (thr (St cf s0 sched (S pb)) t) = i + 1 ->
+  exists v k, handle_ptr (hnd (St cf s0 sched (S pb)) h) = Some v /\
+              (pa + 1 <= k <= pb + 1)%nat /\ mem (sh (St cf s0 sched k)) (LStore c) = v.
+Proof. intros cf inits progs sched R. exact (Main.C12_load_own_container cf inits progs sched R). Qed.
+
+Theorem C12_help_same_container : forall s t c old w ctl r their mine rest,
+  WF2 s -> Quiet s -> GenInv s -> t_status (thr s t) = Running ->
+  t_stack (thr s t) = PE7 c old w ctl r their mine :: rest ->
+  mem (sh s) (LCtrl w) = ctl ->
+  exists th, th <> t /\ owner (thr s th) = Some w /\ req_of (thr s th) = Some (c, ctl) /\
+             mem (sh s) (LOffer w) = their.
+Proof. exact help_cas_sound. Qed.
+
+Theorem C12_accounting : forall cf inits progs sched,
+  RunOK cf inits progs sched -> Acc (run_state cf (init_state inits progs) sched).
+Proof. exact Main.C02_accounting. Qed.
+
 Print Assumptions C12_only_own_storage.
 Print Assumptions C12_writes_form_chain.
 Print Assumptions C12_help_only_matching_storage.
 Print Assumptions C12_pay_slot.
 Print Assumptions C12_guard_drop.
+Print Assumptions C12_load_own_container.
+Print Assumptions C12_help_same_container.
+Print Assumptions C12_accounting.
